@@ -101,6 +101,7 @@ def lean_forbidden_scan():
       # strip block comments and line comments
       src2 = re.sub(r'/-.*?-/', lambda m: '\n' * m.group(0).count('\n'), src, flags=re.S)
       src2 = re.sub(r'--[^\n]*', '', src2)
+      src2 = re.sub(r'"(?:[^"\\\n]|\\.)*"', '""', src2)      # string literals are not code
       for m in FORBIDDEN_RE.finditer(src2):
         line = src2.count('\n', 0, m.start()) + 1
         hits.append('%s:%d:%s' % (os.path.relpath(p, LEAN_DIR), line, m.group(0).strip()))
